@@ -161,7 +161,7 @@ def build_world(case, scratch):
         f = m["tree"]["files"][p["file"]]
         full = m["tree"]["name"] if m["tree"]["single"] else os.path.join(m["tree"]["name"], f[0])
         target = os.path.join(world["dest"], full)
-        if os.path.exists(target) or f[1] == 0 and p["kind"] in ("shorter",):
+        if os.path.exists(target) or f[1] < 2 and p["kind"] in ("shorter", "shorter-wrong"):
             continue
         os.makedirs(os.path.dirname(target), exist_ok=True)
         if p["kind"] == "correct":
@@ -170,6 +170,8 @@ def build_world(case, scratch):
             data = content(p["cseed"], f[1])
         elif p["kind"] == "shorter":
             data = content(f[2], f[1])[:max(0, f[1] - 1 - p["cseed"] % max(1, f[1]))]
+        elif p["kind"] == "shorter-wrong":
+            data = content(p["cseed"], max(1, f[1] - 1 - p["cseed"] % max(1, f[1])))     # not a prefix of the genuine file
         else:  # unrelated
             target = os.path.join(world["dest"], m["tree"]["name"] if not m["tree"]["single"] else "", "unrelated.dat")
             os.makedirs(os.path.dirname(target), exist_ok=True)
@@ -262,7 +264,7 @@ def _decoy_first(world, captured):
 # ---------------------------------------------------------------------- C13
 class C13:
     id = "C13"
-    quick, thorough = 400, 6000
+    quick, thorough = 1200, 24000
     timeout = 180
     rule = ("case = batch of 1-3 torrents (v1/v2/hybrid; tool-made or reference-encoded; layouts incl. files ending "
             "exactly on piece boundaries, empty files, same basename in several payload directories, single file) "
@@ -356,7 +358,7 @@ def _under(path, root):
 
 class C14:
     id = "C14"
-    quick, thorough = 400, 6000
+    quick, thorough = 1200, 24000
     timeout = 180
     rule = ("case = C13 scenario plus a destination pre-populated with correct / wrong-same-size / shorter / "
             "unrelated files and 1-3 consecutive rebuilds into it; monitors: full before/after snapshots (names, "
@@ -366,13 +368,13 @@ class C14:
             "destination file is at a path the metafile assigns, has the recorded length and equals a search file of "
             "that basename; no decoy is placed; non-trivial when pre-populated, a decoy is present or the rebuild "
             "is repeated; distinct by (C13 signature, pre-population kinds, repeats)")
-    required = ("snapshots_compared", "copy_events", "prepop_wrong", "prepop_shorter", "prepop_correct",
+    required = ("snapshots_compared", "copy_events", "prepop_wrong", "prepop_shorter", "prepop_shorter-wrong", "prepop_correct",
                 "repeat_runs", "decoy_met_first", "placed_files_checked")
     assumptions = C13.assumptions
 
     @staticmethod
     def gen(rng, tier, i):
-        kinds = rng.sample(["correct", "wrong", "shorter", "unrelated"], rng.choice([0, 1, 1, 2, 3]))
+        kinds = rng.sample(["correct", "wrong", "shorter", "shorter-wrong", "unrelated"], rng.choice([0, 1, 1, 2, 3]))
         case = gen_scenario(rng, tier, prepop_kinds=kinds)
         case["repeats"] = rng.choice([1, 1, 2, 3])
         return case
@@ -475,7 +477,7 @@ HOSTILE = ["..", ".", "", "../..", "a/../../b", "../../../../../../../../../../.
 
 class C19:
     id = "C19"
-    quick, thorough = 400, 6000
+    quick, thorough = 1200, 24000
     timeout = 120
     rule = ("case = syntactically valid metafile from the reference encoder (v1 multi/single, v2, hybrid) whose name "
             "and/or directory components are hostile ('..', '.', '', absolute, embedded separators, deep '..' "
